@@ -540,7 +540,10 @@ def handle : Handler := fun op inp impl =>
       let v := variant (field inp "v")
       let name := str (field inp "name")
       let r := render e name a v
-      let o := checks 0 r
+      -- the chain as installed: the tracing handler around the checks (traced) or not; the body
+      -- of the request as rendered (a GET has none, or an empty one)
+      let w : BodyWrapper := if bool (field inp "traced") then tracingRead else noWrapper
+      let o := (serverChainW w 0 "" r (if a.method == .get then .eof else .nothing)).outcome
       match (arr impl).map obsOf with
       | [i] =>
         let fb := i.fb.map fbOfClass
@@ -571,8 +574,13 @@ def handle : Handler := fun op inp impl =>
       let pad := field inp "pad"
       let r : Req := if isNull pad then r1 else padReq r1 (str (field pad "kind")) (nat (field pad "n"))
       let reqs := List.replicate times r
-      let outs := serveChain path [] reqs
-      let obs := (arr impl).map realObsOf
+      let getBody := nat (field inp "getBody")
+      let probe : Probe := if a.method == .get then (if getBody == 1 then .nothing else .eof) else .nothing
+      let w : BodyWrapper := if bool (field inp "traced") then tracingRead else noWrapper
+      let outs := serveChainW w path [] (reqs.map fun q => (q, probe))
+      -- a GET that carries a body is refused by connect-go (415) after the checks have run: whether
+      -- the RPC then succeeds says nothing about the checks
+      let obs := (arr impl).map fun j => let o := realObsOf j; if getBody == 1 && o.err == "" then { o with ok := true } else o
       let batch := batchOf [name]
       let agree := outs.length == obs.length && (outs.zip obs).all (fun (o, i) => agreeReal batch o i)
       let model := toJson (outs.map fun o => outcomeJson o.outcome)
@@ -586,13 +594,15 @@ def handle : Handler := fun op inp impl =>
       let (g, gwhy) := serveHolds batch [] reqs (obs.map obsOfReal)
       -- (an expectation header made malformed on purpose is no expectation: judged by agree and by
       -- the general statements only)
+      -- a GET that does carry a body is not the request of a conformant client: whether that body
+      -- is reported is left to agree (the model reports it); everything else must still be exact
       let exact := (!isNull pad && str (field pad "kind") == "expect") ||
-        obs.all fun i => flagsExactly e a ((i.fb.map fbOfClass).filter (fun f => !notAnAspect f))
+        obs.all fun i => flagsExactly e a ((i.fb.map fbOfClass).filter (fun f => !notAnAspect f && !(getBody == 1 && f == .getBody)))
       let dev := mismatches e a
       { agree := agree, holds := g && exact, nontrivial := true, model := model,
         why := if !g then s!"{proc} over HTTP/{a.version.num}: " ++ gwhy else if !exact then
           s!"{proc} over HTTP/{a.version.num}: feedback {obs.map (·.fb)} does not name exactly the deviating aspects {reprStr dev}" else "",
-        cls := s!"{proc}/http{a.version.num}/" ++ (if name == "" then "no-name" else if !isNull pad then "long-feedback" else if !name.startsWith "Real/" then "odd-name" else if !isNull timeout then "timeout"
+        cls := s!"{proc}/http{a.version.num}/" ++ (if bool (field inp "traced") then "traced/" else "") ++ (if name == "" then "no-name" else if name.startsWith "Real/get-body" then s!"get-body-{getBody}" else if !isNull pad then "long-feedback" else if !name.startsWith "Real/" then "odd-name" else if !isNull timeout then "timeout"
           else if times > 1 then "repeat" else if nat (field inp "trailers") > 0 then "trailers"
           else if dev.isEmpty then "match" else "deviating") }
     | _, _ => bad "real: bad tuples"
